@@ -380,7 +380,11 @@ DupNames == {"d", "e"}
 OutSpell == {Path(pre, P(nm)) : pre \in (IF Quick THEN {"", "zz/../", "zz\\..\\"} ELSE Prefixes), nm \in DupNames}
             \cup {Path(pre, P("/q")) : pre \in {"", "/", "/zz/.."}}
 RepSpell == {Path("", P("rep")), Path("zz/../", P("rep"))}
-OutLists == UNION {[1..n -> OutSpell] : n \in 1..(IF Quick THEN 3 ELSE 4)}
+\* (lists of four only over the three short prefixes of the relative names: the enumeration of
+\* initial states is serial in TLC and 15^4 lists took more than half an hour)
+OutSpellShort == {Path(pre, P(nm)) : pre \in {"", "zz/../", "zz\\..\\"}, nm \in DupNames}
+OutLists == UNION {[1..n -> OutSpell] : n \in 1..3}
+            \cup (IF Quick THEN {} ELSE [1..4 -> OutSpellShort])
 
 DupOne(outs, k) ==      \* one statement, the first k outputs explicit, the rest implicit
   <<File("build.ninja",
